@@ -20,6 +20,7 @@ driver ops of component `xpath` (C08).  The driver is stateless, so every evalua
   digits of `exp->repeat[i]`)
 * `xpast <expr-hex>`   -> `ok <hex of the prefix form of the parsed tree>` | `err Lex` | `err Parse`        (model only)
 * `xprender <ast-hex>` -> `ok <hex of the canonical text>` | `err NotWf` (no canonical text: `Canon.wf`)        (model only)
+* `xprendert <ast-hex>` -> `ok <hex of the tight text Render.renderT> <1 if the single-blank fallback was taken, else 0>` | `err NotWf`
 -/
 namespace LyModel.XPath.Drv
 open LyModel LyModel.XPath
@@ -46,7 +47,15 @@ def lrefOf (h : String) : Option (Bool × List (Axis × Test)) :=
   | some (.path .ctx steps) => (stepsOf steps).map fun l => (false, l)
   | _ => none
 
+/-- member of a union: the descriptors of `nodeTyOf`, `enum:<hex name>,…`, `str` -/
+def umemOf (d : String) : Option UMem :=
+  if d == "str" then some .str
+  else if d.startsWith "enum:" then (((d.drop 5).toString.splitOn ",").mapM Hex.dec).map UMem.enm
+  else if d.startsWith "idref:" then (((d.drop 6).toString.splitOn ",").mapM identOfTok).map UMem.idref
+  else (Val.Drv.parseTy d).map UMem.val
+
 def nodeTyOf (d : String) : Option NodeTy :=
+  if d.startsWith "union:" then (((d.drop 6).toString.splitOn "|").mapM umemOf).map NodeTy.union else
   if d.startsWith "idref:" then
     (((d.drop 6).toString.splitOn ",").mapM identOfTok).map NodeTy.idref
   else (Val.Drv.parseTy d).map NodeTy.val
@@ -69,6 +78,7 @@ def addFact (f : Facts) (toks : List String) : Option Facts :=
     match lrefOf h with
     | some l => some { f with lrefs := f.lrefs ++ [(path.toUTF8.toList, l)] }
     | none => none
+  | ["#inst", path] => some { f with insts := f.insts ++ [path.toUTF8.toList] }
   | ["#type", path, d] => (nodeTyOf d).map fun t => { f with types := f.types ++ [(path.toUTF8.toList, t)] }
   | _ => some f
 
@@ -262,7 +272,7 @@ def render : Except Err (Value Float) → String
   | .ok (.num n) => "ok num " ++ numTok n
   | .ok (.bool b) => "ok bool " ++ (if b then "1" else "0")
 
-def allMask : Nat := 32767
+def allMask : Nat := 131071
 
 /-- the expression of an `eval` / `find` request: THE TEXT, parsed by the model of libyang's parser; when the request also
 carries the pre-parsed prefix form (`ast-hex` other than `-`), both routes must give the same tree -/
@@ -356,6 +366,14 @@ def handle (op : String) (args : List String) : String :=
   | "xprender", [h] =>
     match (Hex.dec h).bind parseAst with
     | some e => if Canon.wf e then "ok " ++ Hex.enc (Render.render e) else "err NotWf"
+    | none => "err BadAst"
+  | "xprendert", [h] =>
+    match (Hex.dec h).bind parseAst with
+    | some e =>
+      if Canon.wf e then
+        "ok " ++ Hex.enc (Render.renderT e) ++
+          (if Render.spacingB (Render.atoks e) (Render.tightBs (Render.atoks e)) [] then " 0" else " 1")
+      else "err NotWf"
     | none => "err BadAst"
   | _, _ => "err BadOp"
 
